@@ -316,9 +316,8 @@ theorem recover_GuardsH (H : Body → String) (s : State) (now : Int) (names : L
       refine ⟨?_, by simp [benign]⟩
       apply fold_benign
       · intro acc x
-        refine ⟨_, ?_, List.append_assoc _ _ _⟩
-        simp only [List.all_append, Bool.and_eq_true]
-        exact ⟨toCache_benign _ _ _ _ _ (by decide) (by decide), processCore_benign _ _ _ _ _⟩
+        exact ⟨_, recoverValOne_all benign H _ now x rfl rfl rfl
+          (toCache_benign _ _ _ _ _ (by decide) (by decide)) (processCore_benign _ _ _ _ _), rfl⟩
       · apply fold_benign
         · intro acc x
           refine ⟨_, ?_, rfl⟩
